@@ -488,6 +488,29 @@ func (*eng) Gen(r *hx.Rand, n int, tier string, prop string, out *hx.Out) {
 	out.P("pfx t1 %s i2", hx.Hex(mk(0x0a000000, 7).key()))
 	out.P("pfx t1 %s i3", hx.Hex(mk(0x0a800000, 9).key()))
 	out.P("snap")
+	// the deepest trie 32-bit keys allow: the prefixes 0^i 1 (i = 0..31). LowerBound(0.0.0.0/32) leaves 32 larger
+	// siblings pending; the iterator is read several times (its start stack must survive a pass), also while the
+	// transaction that handed it out goes on writing
+	out.P("#case fixed-deep-lowerbound")
+	out.P("txn x0 t0")
+	for i := 0; i < 32; i++ {
+		out.P("ins x0 %s %d", hx.Hex(mk(uint32(1)<<uint(31-i), i+1).key()), i+1)
+	}
+	out.P("lb x0 %s i0", hx.Hex(mk(0, 32).key()))
+	out.P("it i0")
+	out.P("it i0")
+	out.P("ins x0 %s 99", hx.Hex(mk(0x00000003, 32).key()))
+	out.P("it i0")
+	out.P("commit x0 t1")
+	out.P("lb t1 %s i1", hx.Hex(mk(0, 32).key()))
+	out.P("it i1")
+	out.P("next i1")
+	out.P("it i1")
+	out.P("it i1")
+	out.P("lb t1 %s i2", hx.Hex(mk(0x00000001, 32).key()))
+	out.P("it i2")
+	out.P("it i2")
+	out.P("snap")
 	for c := 0; c < n; c++ {
 		out.P("#case g%d", c)
 		genCase(r.Fork(), tier, out)
